@@ -253,3 +253,314 @@ Theorem C11_solve_reports_nonvacuous :
   exists r, solve bf_oracle st = Ok r /\ r <> OutOfFuel.
 Proof. exact solve_puzzle_exact_nonvacuous. Qed.
 Print Assumptions C11_solve_reports_nonvacuous.
+
+(* Tier 1, simpleloop, every board shape, every layout of black cells (0 = white, any other integer black) and every
+   pivot: the model accepts (Ok) exactly the boards with cells whose pivot lies inside the board (and whose `blocked`
+   is long enough), so the statement needs no side condition; the colour of the pivot cell is the parity of the number
+   of the other white cells, as in the module format.  The single-loop rule and "the loop visits exactly the white
+   cells" go through property C06's theorems about graph.active_edges_single_cycle on a BoolGridFrame of
+   (height-1) x (width-1) cells whose points are the board cells (Cycle.active_edges_single_cycle, auxiliary-variable
+   route) and the is_passed array it returns (composition theorem CycleCompose.cycle_frame_compose).
+   Programs of this module contain no native graph operator. *)
+From Cspuz Require Import Puzzle.Rules_simpleloop Puzzle.Simpleloop Puzzle.SimpleloopProofs.
+Theorem C11_simpleloop_exact : forall h w py px blocked st ans,
+  solve_simpleloop_model (List.cons (List.cons (Z.of_nat h) (List.cons (Z.of_nat w) (List.cons (Z.of_nat py) (List.cons (Z.of_nat px) nil))))
+                                    (List.cons blocked nil)) = Ok st ->
+  ((exists en, model_of no_graph en st /\ reads st en (seq 0 (h * (w - 1) + (h - 1) * w)) = ans)
+   <-> rules_simpleloop (List.cons (List.cons (Z.of_nat h) (List.cons (Z.of_nat w) (List.cons (Z.of_nat py) (List.cons (Z.of_nat px) nil))))
+                                   (List.cons blocked nil)) ans = true).
+Proof. exact simpleloop_exact. Qed.
+Print Assumptions C11_simpleloop_exact.
+
+(* Tier 1, yajilin, every board shape (the solver rejects height < 1 or width < 1 with ValueError, so does the model)
+   and every clue layout in the problem format of Rules_yajilin.v (kind 0 plain, 1..4 arrows, anything else a clue
+   cell without number; any integer as the number).  The answer is read on the frame between the cell centres
+   (ids 0 .. N-1, N = n_lattice_edges h w) followed by the black-cell grid (ids N + 3hw .. N + 4hw - 1, declared after
+   the single-cycle helper's 3hw auxiliary variables), the order in which solve_yajilin registers its answer keys.
+   The single-loop rule through property C06's theorems about graph.active_edges_single_cycle on a BoolGridFrame
+   (composition theorem YajilinCompose.cycle_grid_compose: variables declared after the call, is_passed = on_line in
+   every model); the grid form of graph.active_vertices_not_adjacent (two shifted-slice conjunctions) is proved
+   equivalent to the rule that black cells do not touch, cell by cell.  No native graph operator in these programs. *)
+From Cspuz Require Import Lib.PyErr Puzzle.Rules_yajilin Puzzle.Yajilin Puzzle.YajilinProofs.
+Theorem C11_yajilin_exact : forall h w kind num st ans,
+  solve_yajilin_model (List.cons (List.cons (Z.of_nat h) (List.cons (Z.of_nat w) nil)) (List.cons kind (List.cons num nil))) = Ok st ->
+  ((exists en, model_of no_graph en st /\
+               reads st en (seq 0 (n_lattice_edges h w) ++ seq (n_lattice_edges h w + 3 * (h * w)) (h * w)) = ans)
+   <-> rules_yajilin (List.cons (List.cons (Z.of_nat h) (List.cons (Z.of_nat w) nil)) (List.cons kind (List.cons num nil))) ans = true).
+Proof. exact yajilin_exact. Qed.
+Print Assumptions C11_yajilin_exact.
+
+(* Tier 1, masyu, every board shape (height, width >= 1; solve_masyu raises for the others, the model returns the
+   matching error) and every circle layout (1 white, 2 black, any other integer: no circle).  The answer is the
+   BoolGridFrame of height - 1 x width - 1 cells whose points are the cells of the board, i.e. the
+   n_lattice_edges h w = h (w - 1) + (h - 1) w segments between cell centres; the single-loop rule through property
+   C06's theorems about graph.active_edges_single_cycle on a BoolGridFrame (composition theorem
+   CycleCompose.cycle_frame_compose); the circle constraints built by get_edge (Python bools for the segments
+   outside the board) are proved equal, circle by circle, to rules 3 and 4 of Rules_masyu.v.
+   Programs of this module contain no native graph operator. *)
+From Cspuz Require Import Puzzle.Rules_masyu Puzzle.Masyu Puzzle.MasyuProofs.
+Theorem C11_masyu_exact : forall h w circles st ans,
+  solve_masyu_model (List.cons (List.cons (Z.of_nat h) (List.cons (Z.of_nat w) nil)) (List.cons circles nil)) = Ok st ->
+  ((exists en, model_of no_graph en st /\ reads st en (seq 0 (n_lattice_edges h w)) = ans)
+   <-> rules_masyu (List.cons (List.cons (Z.of_nat h) (List.cons (Z.of_nat w) nil)) (List.cons circles nil)) ans = true).
+Proof. exact masyu_exact. Qed.
+Print Assumptions C11_masyu_exact.
+
+(* Tier 1, geradeweg, every board shape (height, width >= 1; the Python and the model raise ValueError on boards with
+   height <= 0 or width <= 0) and every clue layout (a value >= 1 is a number); the frame points are the cells; the
+   single-loop rule through property C06's theorems (CycleCompose.cycle_frame_compose); the nested cond-trees of
+   line_length are proved to evaluate to the straight-run lengths run_len of the rules.  No native graph operator. *)
+From Cspuz Require Import Puzzle.Rules_geradeweg Puzzle.Geradeweg Puzzle.GeradewegProofs.
+Theorem C11_geradeweg_exact : forall h w clues st ans,
+  solve_geradeweg_model (List.cons (List.cons (Z.of_nat h) (List.cons (Z.of_nat w) nil)) (List.cons clues nil)) = Ok st ->
+  ((exists en, model_of no_graph en st /\ reads st en (seq 0 (h * (w - 1) + (h - 1) * w)) = ans)
+   <-> rules_geradeweg (List.cons (List.cons (Z.of_nat h) (List.cons (Z.of_nat w) nil)) (List.cons clues nil)) ans = true).
+Proof. exact geradeweg_exact. Qed.
+Print Assumptions C11_geradeweg_exact.
+
+(* Tier 1, compass, every board shape and every layout of compasses and numbers: the program posted by solve_compass
+   (model Puzzle/Compass.v - the division grid, ONE call of graph.division_connected = the model of property C05 with one
+   group per compass rooted at the compass cell and allow_empty_group False, division[y, x] == i, and the four
+   directional counts where a number is given - tied to the Python by program capture) has a model whose answer-key
+   variables (the division grid itself, ids 0 .. h*w-1; only rank / is_root / spanning_forest are existential) read as
+   [ans] exactly when [ans] obeys the published rules.  The hypothesis holds exactly for the problems with at least one
+   compass and every compass on a cell of the board (otherwise the Python raises ValueError / IndexError). *)
+From Cspuz Require Import Puzzle.Rules_compass Puzzle.Compass Puzzle.CompassProofs.
+Theorem C11_compass_exact : forall h w cps st ans,
+  solve_compass_model (List.cons (List.cons (Z.of_nat h) (List.cons (Z.of_nat w) nil)) (List.cons cps nil)) = Ok st ->
+  ((exists en, model_of division_gsem en st /\ reads st en (key_ids st) = ans)
+   <-> rules_compass (List.cons (List.cons (Z.of_nat h) (List.cons (Z.of_nat w) nil)) (List.cons cps nil)) ans = true).
+Proof. exact compass_exact. Qed.
+Print Assumptions C11_compass_exact.
+
+Theorem C11_compass_key_ids : forall h w cps st,
+  solve_compass_model (List.cons (List.cons (Z.of_nat h) (List.cons (Z.of_nat w) nil)) (List.cons cps nil)) = Ok st ->
+  key_ids st = List.seq 0 (h * w).
+Proof. exact compass_key_ids. Qed.
+Print Assumptions C11_compass_key_ids.
+
+Theorem C11_compass_model_defined : forall h w cps,
+  (exists st, solve_compass_model (List.cons (List.cons (Z.of_nat h) (List.cons (Z.of_nat w) nil)) (List.cons cps nil)) = Ok st)
+  <-> (Nat.modulo (length cps) 6 = 0 /\ 0 < Nat.div (length cps) 6 /\
+       forall i, i < Nat.div (length cps) 6 ->
+                 (0 <= cp_field cps i 0 < Z.of_nat h)%Z /\ (0 <= cp_field cps i 1 < Z.of_nat w)%Z)%nat.
+Proof. exact compass_model_defined. Qed.
+Print Assumptions C11_compass_model_defined.
+
+(* ---- C11's statement in full, per module, for every board size: [solve_reports oracle st ids rules] is, by
+   definition, the conclusion of C11_solve_reports (next theorem: it unfolds to it).  For each module the side
+   hypotheses of C11_solve_reports are PROVED from the model (Puzzle/<P>Wf.v: <p>_model_wf - every constraint the
+   model posts is a well-typed tree over declared variables, keys and declarations have the same length, the ids
+   the answer is read on are answer keys), so what remains is: any solver meeting C01/C02's oracle hypotheses,
+   and the module's model returning Ok. *)
+From Cspuz Require Import Puzzle.WfLemmas.
+Theorem C11_solve_reports_def : forall oracle st ids rules,
+  solve_reports oracle st ids rules <->
+  exists r, solve oracle st = Ok r /\
+    match r with
+    | Unsat => forall ans, rules ans = false
+    | Sat sol =>
+        (exists ans, rules ans = true) /\
+        forall k i, nth_error ids k = Some i ->
+          exists a, nth_error sol i = Some a /\
+            (forall z, (exists v, a = Some v /\ zval v = z) <->
+                       (forall ans, rules ans = true -> nth_error ans k = Some z)) /\
+            (a = None <-> exists a1 a2, rules a1 = true /\ rules a2 = true /\ nth_error a1 k <> nth_error a2 k)
+    | OutOfFuel => False
+    end.
+Proof. intros; apply iff_refl. Qed.
+Print Assumptions C11_solve_reports_def.
+
+From Cspuz Require Import Puzzle.NorinoriWf.
+Theorem C11_norinori_solve_reports : forall oracle, oracle_sound_on oracle -> oracle_complete_on oracle ->
+  forall h w region st, 
+  solve_norinori_model (List.cons (List.cons (Z.of_nat h) (List.cons (Z.of_nat w) nil)) (List.cons region nil)) = Ok st ->
+  solve_reports oracle st (seq 0 (h * w)) (rules_norinori (List.cons (List.cons (Z.of_nat h) (List.cons (Z.of_nat w) nil)) (List.cons region nil))).
+Proof. exact norinori_solve_reports. Qed.
+Print Assumptions C11_norinori_solve_reports.
+
+From Cspuz Require Import Puzzle.PutteriaWf.
+Theorem C11_putteria_solve_reports : forall oracle, oracle_sound_on oracle -> oracle_complete_on oracle ->
+  forall h w region st, 
+  solve_putteria_model (List.cons (List.cons (Z.of_nat h) (List.cons (Z.of_nat w) nil)) (List.cons region nil)) = Ok st ->
+  solve_reports oracle st (seq 0 (h * w)) (rules_putteria (List.cons (List.cons (Z.of_nat h) (List.cons (Z.of_nat w) nil)) (List.cons region nil))).
+Proof. exact putteria_solve_reports. Qed.
+Print Assumptions C11_putteria_solve_reports.
+
+From Cspuz Require Import Puzzle.StarBattleWf.
+Theorem C11_star_battle_solve_reports : forall oracle, oracle_sound_on oracle -> oracle_complete_on oracle ->
+  forall n k region st, (0 <= k)%Z ->
+  solve_star_battle_model (List.cons (List.cons (Z.of_nat n) (List.cons k nil)) (List.cons region nil)) = Ok st ->
+  solve_reports oracle st (seq 0 (n * n)) (rules_star_battle (List.cons (List.cons (Z.of_nat n) (List.cons k nil)) (List.cons region nil))).
+Proof. exact star_battle_solve_reports. Qed.
+Print Assumptions C11_star_battle_solve_reports.
+
+From Cspuz Require Import Puzzle.SudokuWf.
+Theorem C11_sudoku_solve_reports : forall oracle, oracle_sound_on oracle -> oracle_complete_on oracle ->
+  forall n clues st, 
+  solve_sudoku_model (List.cons (List.cons (Z.of_nat n) nil) (List.cons clues nil)) = Ok st ->
+  solve_reports oracle st (seq 0 ((n * n) * (n * n))) (rules_sudoku (List.cons (List.cons (Z.of_nat n) nil) (List.cons clues nil))).
+Proof. exact sudoku_solve_reports. Qed.
+Print Assumptions C11_sudoku_solve_reports.
+
+From Cspuz Require Import Puzzle.AkariWf.
+Theorem C11_akari_solve_reports : forall oracle, oracle_sound_on oracle -> oracle_complete_on oracle ->
+  forall h w grid st, 
+  solve_akari_model (List.cons (List.cons (Z.of_nat h) (List.cons (Z.of_nat w) nil)) (List.cons grid nil)) = Ok st ->
+  solve_reports oracle st (seq 0 (h * w)) (rules_akari (List.cons (List.cons (Z.of_nat h) (List.cons (Z.of_nat w) nil)) (List.cons grid nil))).
+Proof. exact akari_solve_reports. Qed.
+Print Assumptions C11_akari_solve_reports.
+
+From Cspuz Require Import Puzzle.AquariumWf.
+Theorem C11_aquarium_solve_reports : forall oracle, oracle_sound_on oracle -> oracle_complete_on oracle ->
+  forall h w region rows cols st, (forall i : Z, GraphModel.connected (board h w) (fun v => (getz region v =? i)%Z)) ->
+  solve_aquarium_model (List.cons (List.cons (Z.of_nat h) (List.cons (Z.of_nat w) nil)) (List.cons region (List.cons rows (List.cons cols nil)))) = Ok st ->
+  solve_reports oracle st (seq 0 (h * w)) (rules_aquarium (List.cons (List.cons (Z.of_nat h) (List.cons (Z.of_nat w) nil)) (List.cons region (List.cons rows (List.cons cols nil))))).
+Proof. exact aquarium_solve_reports. Qed.
+Print Assumptions C11_aquarium_solve_reports.
+
+From Cspuz Require Import Puzzle.BuildingWf.
+Theorem C11_building_solve_reports : forall oracle, oracle_sound_on oracle -> oracle_complete_on oracle ->
+  forall n up dw lf rg st, 
+  solve_building_model (List.cons (List.cons (Z.of_nat n) nil) (List.cons up (List.cons dw (List.cons lf (List.cons rg nil))))) = Ok st ->
+  solve_reports oracle st (seq 0 (n * n)) (rules_building (List.cons (List.cons (Z.of_nat n) nil) (List.cons up (List.cons dw (List.cons lf (List.cons rg nil)))))).
+Proof. exact building_solve_reports. Qed.
+Print Assumptions C11_building_solve_reports.
+
+From Cspuz Require Import Puzzle.DoppelblockWf.
+Theorem C11_doppelblock_solve_reports : forall oracle, oracle_sound_on oracle -> oracle_complete_on oracle ->
+  forall n rows cols st, 
+  solve_doppelblock_model (List.cons (List.cons (Z.of_nat n) nil) (List.cons rows (List.cons cols nil))) = Ok st ->
+  solve_reports oracle st (seq 0 (n * n)) (rules_doppelblock (List.cons (List.cons (Z.of_nat n) nil) (List.cons rows (List.cons cols nil)))).
+Proof. exact doppelblock_solve_reports. Qed.
+Print Assumptions C11_doppelblock_solve_reports.
+
+From Cspuz Require Import Puzzle.CreekWf.
+Theorem C11_creek_solve_reports : forall oracle, oracle_sound_on oracle -> oracle_complete_on oracle ->
+  forall h w clue st, 
+  solve_creek_model (List.cons (List.cons (Z.of_nat h) (List.cons (Z.of_nat w) nil)) (List.cons clue nil)) = Ok st ->
+  solve_reports oracle st (seq 0 (h * w)) (rules_creek (List.cons (List.cons (Z.of_nat h) (List.cons (Z.of_nat w) nil)) (List.cons clue nil))).
+Proof. exact creek_solve_reports. Qed.
+Print Assumptions C11_creek_solve_reports.
+
+From Cspuz Require Import Puzzle.NurimisakiWf.
+Theorem C11_nurimisaki_solve_reports : forall oracle, oracle_sound_on oracle -> oracle_complete_on oracle ->
+  forall h w grid st, 
+  solve_nurimisaki_model (List.cons (List.cons (Z.of_nat h) (List.cons (Z.of_nat w) nil)) (List.cons grid nil)) = Ok st ->
+  solve_reports oracle st (seq 0 (h * w)) (rules_nurimisaki (List.cons (List.cons (Z.of_nat h) (List.cons (Z.of_nat w) nil)) (List.cons grid nil))).
+Proof. exact nurimisaki_solve_reports. Qed.
+Print Assumptions C11_nurimisaki_solve_reports.
+
+From Cspuz Require Import Puzzle.HeyawakeWf.
+Theorem C11_heyawake_solve_reports : forall oracle, oracle_sound_on oracle -> oracle_complete_on oracle ->
+  forall h w room clue st, 
+  solve_heyawake_model (List.cons (List.cons (Z.of_nat h) (List.cons (Z.of_nat w) nil)) (List.cons room (List.cons clue nil))) = Ok st ->
+  solve_reports oracle st (seq 0 (h * w)) (rules_heyawake (List.cons (List.cons (Z.of_nat h) (List.cons (Z.of_nat w) nil)) (List.cons room (List.cons clue nil)))).
+Proof. exact heyawake_solve_reports. Qed.
+Print Assumptions C11_heyawake_solve_reports.
+
+From Cspuz Require Import Puzzle.GokigenWf.
+Theorem C11_gokigen_solve_reports : forall oracle, oracle_sound_on oracle -> oracle_complete_on oracle ->
+  forall h w clue st, 
+  solve_gokigen_model (List.cons (List.cons (Z.of_nat h) (List.cons (Z.of_nat w) nil)) (List.cons clue nil)) = Ok st ->
+  solve_reports oracle st (seq 0 (h * w)) (rules_gokigen (List.cons (List.cons (Z.of_nat h) (List.cons (Z.of_nat w) nil)) (List.cons clue nil))).
+Proof. exact gokigen_solve_reports. Qed.
+Print Assumptions C11_gokigen_solve_reports.
+
+From Cspuz Require Import Puzzle.SlitherlinkWf.
+Theorem C11_slitherlink_solve_reports : forall oracle, oracle_sound_on oracle -> oracle_complete_on oracle ->
+  forall h w clues st, 
+  solve_slitherlink_model (List.cons (List.cons (Z.of_nat h) (List.cons (Z.of_nat w) nil)) (List.cons clues nil)) = Ok st ->
+  solve_reports oracle st (seq 0 (S h * w + h * S w)) (rules_slitherlink (List.cons (List.cons (Z.of_nat h) (List.cons (Z.of_nat w) nil)) (List.cons clues nil))).
+Proof. exact slitherlink_solve_reports. Qed.
+Print Assumptions C11_slitherlink_solve_reports.
+
+From Cspuz Require Import Puzzle.ViewWf.
+Theorem C11_view_solve_reports : forall oracle, oracle_sound_on oracle -> oracle_complete_on oracle ->
+  forall h w grid st, 
+  solve_view_model (List.cons (List.cons (Z.of_nat h) (List.cons (Z.of_nat w) nil)) (List.cons grid nil)) = Ok st ->
+  solve_reports oracle st (seq (3 * (h * w)) (h * w) ++ seq 0 (h * w)) (rules_view (List.cons (List.cons (Z.of_nat h) (List.cons (Z.of_nat w) nil)) (List.cons grid nil))).
+Proof. exact view_solve_reports. Qed.
+Print Assumptions C11_view_solve_reports.
+
+From Cspuz Require Import Puzzle.NurikabeWf.
+Theorem C11_nurikabe_solve_reports : forall oracle, oracle_sound_on oracle -> oracle_complete_on oracle ->
+  forall h w grid st, 
+  solve_nurikabe_model (List.cons (List.cons (Z.of_nat h) (List.cons (Z.of_nat w) nil)) (List.cons grid nil)) = Ok st ->
+  solve_reports oracle st (key_ids st) (rules_nurikabe (List.cons (List.cons (Z.of_nat h) (List.cons (Z.of_nat w) nil)) (List.cons grid nil))).
+Proof. exact nurikabe_solve_reports. Qed.
+Print Assumptions C11_nurikabe_solve_reports.
+
+(* Tier 1, fivecells, every board shape and every layout of holes (< -1), blank cells (-1) and numbers (>= 0), any meaning
+   gsem of the native graph operators (none is posted): the program posted by solve_fivecells (model Puzzle/Fivecells.v - the
+   graph on the renumbered usable cells, graph.division_connected_variable_groups with group_size = 5 = the model of
+   property C07, one count_true(group_id[c] != group_id[nb]) == number - (4 - #usable neighbours) per number, then the
+   is_border variables with is_border[k] == (group_id[u] != group_id[v]) - tied to the Python by program capture) has a model
+   whose answer-key variables (is_border, declared after the existential group_id / rank / is_root / is_active_edge /
+   downstream_size / total_size variables) read as [ans] exactly when [ans] obeys the published rules.  Regions through
+   property C07's theorem vargroups_exact_scalar (Puzzle/GroupsCompose.v::groups_compose, emb_border_exact).  The
+   hypothesis holds exactly for the full grids with at least one usable cell (otherwise the Python raises IndexError /
+   ValueError, and so does the model). *)
+From Cspuz Require Import Graph.VarGroups Puzzle.GroupsCompose Puzzle.Rules_fivecells Puzzle.Fivecells Puzzle.FivecellsProofs.
+Theorem C11_fivecells_exact : forall gsem h w grid st ans,
+  solve_fivecells_model (List.cons (List.cons (Z.of_nat h) (List.cons (Z.of_nat w) nil)) (List.cons grid nil)) = Ok st ->
+  ((exists en, model_of gsem en st /\ reads st en (key_ids st) = ans)
+   <-> rules_fivecells (List.cons (List.cons (Z.of_nat h) (List.cons (Z.of_nat w) nil)) (List.cons grid nil)) ans = true).
+Proof. exact fivecells_exact. Qed.
+Print Assumptions C11_fivecells_exact.
+
+Theorem C11_fivecells_key_ids : forall h w grid st,
+  solve_fivecells_model (List.cons (List.cons (Z.of_nat h) (List.cons (Z.of_nat w) nil)) (List.cons grid nil)) = Ok st ->
+  key_ids st = List.seq (5 * fc_vid grid (h * w) + length (fc_pairs h w grid)) (length (fc_pairs h w grid)).
+Proof. exact fivecells_key_ids. Qed.
+Print Assumptions C11_fivecells_key_ids.
+
+Theorem C11_fivecells_model_defined : forall h w grid,
+  (exists st, solve_fivecells_model (List.cons (List.cons (Z.of_nat h) (List.cons (Z.of_nat w) nil)) (List.cons grid nil)) = Ok st)
+  <-> (h * w <= length grid /\ 1 <= fc_vid grid (h * w))%nat.
+Proof. exact fivecells_model_defined. Qed.
+Print Assumptions C11_fivecells_model_defined.
+
+(* Tier 1, fillomino, every board shape and every layout of given numbers (a cell value >= 1 is a given number, anything
+   else empty): the program posted by solve_fillomino (model Puzzle/Fillomino.v - the size grid 1..h*w = the answer keys,
+   ids 0..h*w-1; the BoolInnerGridFrame of borders; graph.division_connected_variable_groups_with_borders = the model of
+   property C07, inner-frame form, auxiliary-variable route; "a border lies exactly between cells of different size"; the
+   given numbers - tied to the Python by program capture) has a model reading as [ans] on the size grid exactly when [ans]
+   obeys the published rules.  Border variables and the connectivity encoding's variables are existential; composition
+   through C07's vargroups_borders_exact / vargroups_frame_layout (Puzzle/BordersCompose.v: borders_grid_compose,
+   border_exact_groups).  The hypothesis holds exactly for boards with at least one cell and a full clue list (otherwise
+   the Python raises ValueError / IndexError). *)
+From Cspuz Require Import Puzzle.Rules_fillomino Puzzle.Fillomino Puzzle.FillominoProofs.
+Theorem C11_fillomino_exact : forall h w given st ans,
+  solve_fillomino_model (List.cons (List.cons (Z.of_nat h) (List.cons (Z.of_nat w) nil)) (List.cons given nil)) = Ok st ->
+  ((exists en, model_of no_graph en st /\ reads st en (seq 0 (h * w)) = ans)
+   <-> rules_fillomino (List.cons (List.cons (Z.of_nat h) (List.cons (Z.of_nat w) nil)) (List.cons given nil)) ans = true).
+Proof. exact fillomino_exact. Qed.
+Print Assumptions C11_fillomino_exact.
+
+Theorem C11_fillomino_model_defined : forall h w given,
+  (exists st, solve_fillomino_model (List.cons (List.cons (Z.of_nat h) (List.cons (Z.of_nat w) nil)) (List.cons given nil)) = Ok st)
+  <-> (0 < h * w <= length given)%nat.
+Proof. exact fillomino_model_defined. Qed.
+Print Assumptions C11_fillomino_model_defined.
+
+(* Tier 1, shakashaka, every board shape and every layout of white / black / numbered cells: the program posted by
+   solve_shakashaka (model Puzzle/Shakashaka.v, tied to the Python by program capture) has a model reading as [ans]
+   on the answer grid exactly when [ans] obeys Rules_shakashaka (triangles only in white cells, every number counts
+   the triangles around it, every white area passes the rule file's executable rectangle test); the equivalence of the
+   posted local corner patterns with the rectangle test is a geometric theorem (Puzzle/Shakashaka{Geo,Axis,Diag,Sound,
+   Complete,Bridge,Count,Rect}.v) *)
+From Cspuz Require Import Lib.PyErr Puzzle.Rules_shakashaka Puzzle.Shakashaka Puzzle.ShakashakaProofs Puzzle.ShakashakaWf.
+Theorem C11_shakashaka_exact : forall h w grid st ans,
+  solve_shakashaka_model (List.cons (List.cons (Z.of_nat h) (List.cons (Z.of_nat w) nil)) (List.cons grid nil)) = Ok st ->
+  ((exists en, model_of no_graph en st /\ reads st en (seq 0 (h * w)) = ans)
+   <-> rules_shakashaka (List.cons (List.cons (Z.of_nat h) (List.cons (Z.of_nat w) nil)) (List.cons grid nil)) ans = true).
+Proof. exact shakashaka_exact. Qed.
+Print Assumptions C11_shakashaka_exact.
+
+Theorem C11_shakashaka_solve_reports : forall oracle, oracle_sound_on oracle -> oracle_complete_on oracle ->
+  forall h w grid st,
+  solve_shakashaka_model (List.cons (List.cons (Z.of_nat h) (List.cons (Z.of_nat w) nil)) (List.cons grid nil)) = Ok st ->
+  solve_reports oracle st (seq 0 (h * w)) (rules_shakashaka (List.cons (List.cons (Z.of_nat h) (List.cons (Z.of_nat w) nil)) (List.cons grid nil))).
+Proof. exact shakashaka_solve_reports. Qed.
+Print Assumptions C11_shakashaka_solve_reports.
